@@ -649,7 +649,11 @@ func genHistory(seed uint64, variant string, pool []*PoolProg, admitted []int) *
 		allocOps++
 	}
 	emitParse := func(li int, slot int) {
-		sc.Ops = append(sc.Ops, Op{Op: "parse", P: li, T: slot, Ent: r.U64()})
+		po := Op{Op: "parse", P: li, T: slot, Ent: r.U64()}
+		if r.Chance(1, 5) {
+			po.Kind = pick(r, []string{"memoize", "filename", "stats"})
+		}
+		sc.Ops = append(sc.Ops, po)
 		if pool[chosen[li]].Ref[variant].ParseClass == "ok" {
 			slotProg[slot] = li
 		} else {
